@@ -71,6 +71,8 @@ def mutants(argv):
             if os.path.exists(meta):
                 m = json.load(open(meta))
                 pats.append((m["property"], os.path.join(sdir, d, "patch.diff"), "seeded/" + d))
+    baseline = "--baseline" in argv
+    argv = [a for a in argv if a != "--baseline"]
     only = set(argv)
     results = []
     for prop, patch, name in pats:
@@ -84,6 +86,15 @@ def mutants(argv):
             if ap.returncode != 0:
                 results.append((name, prop, "PATCH-FAILED", ap.stderr[-200:]))
                 continue
+            if baseline:
+                bp = subprocess.run([PY, "-m", "pytest", "-q", "-p", "no:cacheprovider", "--timeout=900", "tests"],
+                                    capture_output=True, text=True, cwd=dst,
+                                    env=dict(os.environ, PYTHONPATH=dst))
+                tail = bp.stdout.strip().splitlines()[-1] if bp.stdout.strip() else ""
+                if "36 passed" not in tail:
+                    results.append((name, prop, "BASELINE-BROKEN", tail))
+                    print("%-44s %s %-14s %s" % results[-1])
+                    continue
             env = dict(os.environ)
             env.update({"PYTHONHASHSEED": "0", "PYTHONPATH": dst + os.pathsep + VERIF, "VERIF_REPO": dst,
                         "VERIF_EVIDENCE_DIR": os.path.join(scratch, "evidence"),
